@@ -64,7 +64,7 @@ def main(tier, seed, replay=None):
             subsets = [subsets[i] for i in idx]
         # keep sets are passed in a random order (the code must treat them as sets)
         keeps = [[int(v) for v in rs.permutation(s)] for s in subsets]
-        bad_keeps = [[], [scope[0], scope[0]], [scope[0], max(scope) + 3]]
+        bad_keeps = [[], [scope[0], scope[0]], [scope[0], max(scope) + 3], [max(scope) + 3], list(scope) + [max(scope) + 1]]
         for keep in keeps + bad_keeps:
             try:
                 mroot = marginalize(root, list(keep), copy=True)
@@ -74,6 +74,11 @@ def main(tier, seed, replay=None):
             except Exception as e:
                 rep.violation(dict(kind="marginalize-raised-unexpectedly", circuit=tab.brief(), keep=keep,
                                    error=f"{type(e).__name__}: {e}"), True)
+                continue
+            if mroot is not None and keep in bad_keeps:
+                rep.violation(dict(kind="invalid-kept-set-accepted", circuit=tab.brief(), keep=keep,
+                                   what="empty, duplicated or out-of-scope kept sets must be rejected",
+                                   returned_scope=[int(v) for v in mroot.scope]), True)
                 continue
             try:
                 after = json.dumps(G.Table(root).brief())
